@@ -34,6 +34,8 @@ def fname(f):
         s += "-tkt"
     if f["npn"]:
         s += "-npn" + ("0" if f["npn"] == "empty" else "")
+    if f.get("rotated"):
+        s += "-rotated"
     if f["resume"] != "none":
         s += "-res" + f["resume"]
     if f["hrr"]:
@@ -202,6 +204,12 @@ class Scenario(object):
 
     def gens(self):
         b, p = self.b, self.pair
+        if self.f.get("rotated") and not getattr(self, "_rotated", False):
+            # the server has meanwhile put a new ticket key in front of the one the client's ticket was made with
+            self._rotated = True
+            st = b["skw"]["settings"]
+            if st.ticketKeys:
+                st.ticketKeys = [bytearray(b"\x5a" * 32)] + list(st.ticketKeys)
         ckw = dict(b["ckw"])
         if b["kind"] == "cert":
             cgen = p.c.handshakeClientCert(async_=True, **ckw)
